@@ -21,9 +21,9 @@ CHECKS = {
          "Held on generated files and version sequences from the accepted forms."),
  "C15": ("exploration", "4 C15", "strace system-call monitor plus sandbox snapshots against a path model of allowed targets",
          "strace -f sees all file-related system calls of the CLI; held on the generated trees and 32 command lines."),
- "C16": ("fault_enumeration", "4 C16", "single-fault injection over an enumerated catalogue x positions x commands; exit status, stdout and snapshot oracle",
+ "C16": ("fault_enumeration", "4 C16", "single-fault injection over an enumerated catalogue x positions x commands, plus system-call fault injection (strace: failing reads, writes, directory listings on one file of the tree); exit status, stdout and snapshot oracle",
          "Catalogue enumerated completely per tree; --all is atomic per assembly file."),
- "C17": ("exploration", "4 C17", "conservation monitor: every entry / line of inputs with one line of 1 B..1 MiB must survive or the command must fail loudly",
+ "C17": ("exploration", "4 C17", "conservation monitor: every entry / line of inputs with one line of 1 B..1 MiB must survive or the command must fail loudly; also under injected read faults in the middle of a file",
          "Lengths and positions enumerated; membership decided by Go's regexp."),
  "C18": ("fault_enumeration", "4 C18", "enumerated argument table (K = 0..300 and beyond) observed through distinct tokens per file and chain position; root resolution over nested roots",
          "Model of the grammar written from the statement; distinct content identifies the resolved file, rule and offset."),
